@@ -44,6 +44,9 @@ type Ctx struct {
 	renamedBack map[*load.FuncInfo]string
 	// skipWrap: the helper rules are run as a clause of another property, without the int32 overflow rule (a C01/C15 matter)
 	skipWrap bool
+	// only: the rules of another property are run for some of their clauses only, recorded under this property's names
+	only          map[string]string
+	onlyConstruct func(construct string) bool
 	P        *load.Prog
 	E        *gf.Engine
 	G        *eff.Graph
@@ -72,6 +75,13 @@ func NewCtx(p *load.Prog, tier string) *Ctx {
 }
 
 func (c *Ctx) add(rule, construct string, pos token.Pos, st Status, nontrivial bool, detail string) {
+	if c.only != nil {
+		as, ok := c.only[rule]
+		if !ok || (c.onlyConstruct != nil && !c.onlyConstruct(construct)) {
+			return
+		}
+		rule = as
+	}
 	c.Obs = append(c.Obs, &Ob{Rule: rule, Construct: construct, Pos: c.P.Pos(pos), Status: st, Detail: detail, NonTrivial: nontrivial})
 }
 
@@ -127,6 +137,9 @@ func clip(s string, n int) string {
 
 // Floor fails the check (no verdict) if a rule matched fewer instances than confirmed by hand.
 func (c *Ctx) Floor(rule string, got, want int) {
+	if c.only != nil {
+		return
+	}
 	if got < want {
 		c.Fatal = append(c.Fatal, fmt.Sprintf("rule %s matched %d instances, hand-confirmed floor is %d (the rule no longer sees the code it was written for)", rule, got, want))
 	} else {
